@@ -234,6 +234,29 @@ func c14cache(r *core.Recorder, c c14cfg, seedRng func(string) interface{ IntN(i
 				}
 			}()
 		}
+		if c.Backend == "file" && !c.Sabotage {
+			// somebody else tidies the cache directory (a tmp cleaner, an operator): data files of indexed entries
+			// disappear behind the cache's back while the workers keep looking them up
+			churn.Add(1)
+			dir := filepath.Join(wd, "c14cache", c.ID)
+			go func() {
+				defer churn.Done()
+				for i := 0; ; i++ {
+					select {
+					case <-stop:
+						return
+					default:
+					}
+					if ents, err := os.ReadDir(dir); err == nil && len(ents) > 0 {
+						e := ents[i%len(ents)]
+						if !e.IsDir() && !strings.Contains(e.Name(), ".tmp") {
+							os.Remove(filepath.Join(dir, e.Name()))
+						}
+					}
+					time.Sleep(300 * time.Microsecond)
+				}
+			}()
+		}
 		if c.Churn {
 			churn.Add(1)
 			rng := seedRng(c.ID + "-churn")
@@ -504,7 +527,7 @@ func init() {
 	core.Register(&core.Monitor{
 		ID:    "C14",
 		Level: "exploration",
-		Rule: "stress configurations = backend x shard count {1,2,3,1024} x key placement {all keys on one shard, spread} x shutdown {Destroy after / during traffic / twice} x config churn on/off, 16 workers x <ops> random store (also of an empty body and from a source that breaks off part-way)/get/delete/update/get-metadata on 12 keys, limit 1500 B (so stores keep evicting from inside the store), janitor at 1 ms; the same through the real proxy (12 clients, plain and tunnel, Range requests, policy/limit/interval/budget churn); race and plain builds (thorough: also GOMAXPROCS 1/2/4); stops with 2-6 interval changes the janitor has not consumed (context cancelled first / janitor loop parked inside a cycle by a hook / changes right before Destroy). " +
+		Rule: "stress configurations = backend x shard count {1,2,3,1024} x key placement {all keys on one shard, spread} x shutdown {Destroy after / during traffic / twice} x config churn on/off, 16 workers x <ops> random store (also of an empty body and from a source that breaks off part-way)/get/delete/update/get-metadata on 12 keys, limit 1500 B (so stores keep evicting from inside the store), janitor at 1 ms, on the file backend data files removed from the directory behind the cache's back; the same through the real proxy (12 clients, plain and tunnel, Range requests, policy/limit/interval/budget churn); race and plain builds (thorough: also GOMAXPROCS 1/2/4); stops with 2-6 interval changes the janitor has not consumed (context cancelled first / janitor loop parked inside a cycle by a hook / changes right before Destroy). " +
 			"A watchdog dumps all goroutines when no operation completes for 15-20 s while work is pending; blocked reservoir frames = violation, none = inconclusive. Non-trivial = distinct configuration that ran to completion.",
 		Assumptions: []string{"bounded progress under the listed workloads, not deadlock freedom", "a stall without any goroutine blocked inside reservoir is reported as inconclusive, never as a violation"},
 		Plan:        c14Plan,
